@@ -669,4 +669,40 @@ theorem stale_false_fixed {n : Nat} {log : List Ev} {s : St}
   have := good_of_run hm' (Or.inl rfl)
   exact ⟨this.1, this.2.1⟩
 
+/-- a pop takes its "return false" branch only on an empty chain (any tagging discipline) -/
+theorem pop_false_only_if_empty_G {fx : Bool} {s s' : St} (hi : Inv s) (t : Nat) (a : Anchor)
+    (d : Bool) (hpc : s.pc t = .popLd d) (hstep : stepG fx s (.ld t a) = some s')
+    (hret : s'.pc t = .retn false 0) : contents s = [] := by
+  simp only [stepG] at hstep
+  split at hstep
+  case isFalse => simp at hstep
+  rename_i hg
+  obtain ⟨_, ha⟩ := hg
+  subst ha
+  rw [hpc] at hstep
+  simp only [Option.some.injEq] at hstep
+  subst hstep
+  simp only [upd_same] at hret
+  by_cases h0 : s.anchor.endp d = 0
+  · simp [contents, hi.glob.nil_of_end d h0]
+  · simp only [h0, if_false] at hret
+    split at hret
+    · simp at hret
+    · split at hret <;> simp at hret
+
+/-- conservation consequences of the invariant -/
+theorem conc_of_inv {s : St} (hi : Inv s) :
+    s.pushed.Perm (s.popped ++ contents s) ∧
+    (∀ v, s.popped.count v ≤ s.pushed.count v) ∧
+    (s.chain = [] → s.popped.Perm s.pushed) := by
+  refine ⟨hi.cons, ?_, ?_⟩
+  · intro v
+    have := hi.cons.count_eq v
+    rw [List.count_append] at this
+    omega
+  · intro hc
+    have := hi.cons
+    simp only [contents, hc, List.map_nil, List.append_nil] at this
+    exact this.symm
+
 end PikaVerif.Deque
